@@ -433,7 +433,12 @@ namespace
 				     [&] (zw_error **e) { return zw_vocabulary_add (voc, part, e); },
 				     &failed, &msg);
 		if (failed)
-		  violation ("setup", "zw_vocabulary_add: " + msg);
+		  {
+		    // e.g. the same part added twice: an error, and the
+		    // vocabulary stays as it was
+		    ev << " addfail=" << k << " msg=" << hexenc (msg);
+		    failed = false;
+		  }
 	      }
 	    st.VOC[v] = voc;
 	    ev << " ok";
